@@ -85,6 +85,8 @@ func runLive(c LiveCase, r *pbt.R) {
 	var gens []scen.Gen13
 	stop := scen.CaptureGens13(&gens)
 	defer stop()
+	getSecrets, stopSecrets := scen.CaptureSecrets13()
+	defer stopSecrets()
 	berr := pbt.Bubble(func() {
 		cEP, sEP := liveEPs(&c)
 		env := scen.NewEnv()
@@ -327,13 +329,29 @@ func runLive(c LiveCase, r *pbt.R) {
 					th.Write(full13(m))
 				}
 			}
-			// exporter: RFC 8446 7.5 needs the exporter master secret, which no hook exposes; what can be said
-			// from outside: the value must not be computable from public data alone (C07). Here only equality
-			// of both sides' values is checked.
+			// exporter: RFC 8446 7.5 keyed with the exporter master secret (reported by the verif hook)
 			a, e1 := stC.ExportKeyingMaterial(c.Label, nil, c.ExpLen)
 			b, e2 := stS.ExportKeyingMaterial(c.Label, nil, c.ExpLen)
 			if e1 != nil || e2 != nil || !bytes.Equal(a, b) {
 				r.Failf("C10|live|exporter13-sides-differ", "exporter values differ between the two sides: %v %v", e1, e2)
+
+				return
+			}
+			ems := getSecrets()["exporter_master"]
+			if len(ems) == 0 {
+				r.Failf("C10|harness|no-exporter-master", "the hook reported no exporter master secret")
+
+				return
+			}
+			for _, em := range ems {
+				if !bytes.Equal(em, ems[0]) {
+					r.Failf("C10|live|exporter-master-differs", "client and server derived different exporter master secrets")
+
+					return
+				}
+			}
+			if want := ref.Exporter13(su, ems[0], c.Label, nil, c.ExpLen); !bytes.Equal(a, want) {
+				r.Failf("C10|live|exporter13", "ExportKeyingMaterial(%q,%d) = %x, RFC 8446 7.5 (dtls13 labels) gives %x", c.Label, c.ExpLen, a, want)
 
 				return
 			}
